@@ -24,6 +24,10 @@ THEOREMS = [
     "C14_illegal_modifier",
     "C14_illegal_two_variadics",
     "C14_concat",
+    "C14_source_loop_body",
+    "C14_source_parser",
+    "C14_source_spec",
+    "C14_source_header",
 ]
 RULE = (
     "exhaustive: every axis token made of <=4 modifier characters from {#,*,_,?} in any order "
